@@ -9,7 +9,10 @@ Lean's exact rationals `Rat`, the theorems are proved for every linearly ordered
   * `f`, `F : α → α`        point values of the user's waveform / parametrisation callables,
   * `integ : α → α → α`     `integ a b` = what `scipy.integrate.quad(pulse, a, b)[0]` returns
                             (external routine; recorded assumption: it is the integral of `f` over [a,b]),
-  * `ε` (`Pulse.epsilon = 1e-6`) and `n` (`Pulse.check_n_points = 10`), class attributes in Python.
+  * `ε` (`Pulse.epsilon = 1e-6`) and `n` (`Pulse.check_n_points = 10`), class attributes in Python,
+  * `τ`                     the slack of the sampled monotonicity comparison: the code on the pinned tree compares
+                            `F(x + ε) >= F(x)` (`τ = 0`); the repair of the rounding defect D17 compares
+                            `F(x + ε) >= F(x) - ε**2` (`τ = ε²`).  The translator reads `τ` from the source text.
 
 Transcribed statement by statement:
 
@@ -71,11 +74,11 @@ def pulseIsValid (ε : α) (n : Nat) (integ : α → α → α) (f : α → α) 
   let isNonNegative := (linspace (0 : α) 1 n).all fun x => decide (0 ≤ f x)
   integratesTo1 && isNonNegative
 
-/-- `Pulse._parametrization_is_valid` -/
-def paramIsValid (ε : α) (n : Nat) (F : α → α) : Bool :=
+/-- `Pulse._parametrization_is_valid` (`parametrization(x + ε) >= parametrization(x) - τ`) -/
+def paramIsValid (ε τ : α) (n : Nat) (F : α → α) : Bool :=
   let startsAt0 := decide (absv (F 0 - 0) < ε)
   let stopsAt1 := decide (absv (F 1 - 1) < ε)
-  let isMonotone := (linspace (0 : α) (1 - ε) n).all fun x => decide (F x ≤ F (x + ε))
+  let isMonotone := (linspace (0 : α) (1 - ε) n).all fun x => decide (F x - τ ≤ F (x + ε))
   startsAt0 && stopsAt1 && isMonotone
 
 /-- the `for` loop of `Pulse._are_compatible` over the remaining grid points -/
@@ -88,10 +91,10 @@ def areCompatible (ε : α) (n : Nat) (integ : α → α → α) (F : α → α)
   compatLoop ε integ F (linspace ε (1 - ε) n)
 
 /-- `Pulse.__init__(pulse, parametrization, perform_checks)`: `.ok ()` = the object is constructed -/
-def construct (performChecks : Bool) (ε : α) (n : Nat) (integ : α → α → α) (f F : α → α) : Except Err Unit :=
+def construct (performChecks : Bool) (ε τ : α) (n : Nat) (integ : α → α → α) (f F : α → α) : Except Err Unit :=
   if performChecks then
     if !pulseIsValid ε n integ f then .error .pulseNotValid
-    else if !paramIsValid ε n F then .error .paramNotValid
+    else if !paramIsValid ε τ n F then .error .paramNotValid
     else if !areCompatible ε n integ F then .error .incompatible
     else .ok ()
   else .ok ()
@@ -108,8 +111,8 @@ end
 
 /-- the instance the driver executes: exact rationals of core Lean (elaborated here, without Mathlib, so every
 operation is core `Rat`'s; `QG.C13` shows the theorems apply to it) -/
-def constructRat (performChecks : Bool) (ε : Rat) (n : Nat) (integ : Rat → Rat → Rat) (f F : Rat → Rat) :
-    Except Err Unit := construct performChecks ε n integ f F
+def constructRat (performChecks : Bool) (ε τ : Rat) (n : Nat) (integ : Rat → Rat → Rat) (f F : Rat → Rat) :
+    Except Err Unit := construct performChecks ε τ n integ f F
 
 def gaussianValidateInputsRat (typeChecks : List Bool) (denominator : Rat) : Except GErr Unit :=
   gaussianValidateInputs typeChecks denominator
